@@ -16,14 +16,14 @@ E2_TECH = "static: custom libTooling fact extractor + rules over canonical AST f
 PROPS = {
  "C01": dict(
     level="proof",
-    claim="Proof, for every extent and index at ranks 1..4 (thorough: 1..6) on fixed-rank shape containers, of the stride, offset, indices, ndindex, product and reverse formulas the property states, and that ndarray_t/hybrid_ndarray address element (i..) at the layout's offset for row- and column-major; the bijection/ordering clauses that follow from them by the mixed-radix theorem are not decided.",
+    claim="Proof, for every extent and index at ranks 1..4 (thorough: 1..6) on fixed-rank shape containers, of the stride, offset, indices, ndindex, product and reverse formulas the property states, and that ndarray_t/hybrid_ndarray address element (i..) at the layout's offset for row- and column-major; the bijection / round-trip / row-major-order clauses, which follow from them only by the mixed-radix theorem, are decided exhaustively for every shape with extents 1..3 at ranks 1..3 and extents 1..2 at rank 4 (c01b_roundtrip_enum: unravel = mixed-radix digits, ravel(unravel(k)) = k, ndindex visits positions in row-major order, sizes; fixed arrays and bounded run-time-length shapes), and are not decided beyond those shapes; compute_offset is also stated for indices and strides of different container kinds.",
     note=E1_NOTE + " Assumes extents>=1.",
     technique=E1_TECH,
-    e1=[dict(tu="c01_index.cpp"), dict(tu="c20_ndarray.cpp"), dict(tu="c07_outer_misc.cpp"), dict(tu="c12_enum.cpp")],
+    e1=[dict(tu="c01_index.cpp"), dict(tu="c20_ndarray.cpp"), dict(tu="c07_outer_misc.cpp"), dict(tu="c12_enum.cpp"), dict(tu="c01b_roundtrip_enum.cpp")],
     e2=[dict(rule="R-CONSTBRANCH", anchors=True)],
     rule=E1_RULE,
     explanation="Stride/offset/indices formulas of the property statement are stated as branch-to-noreturn obligations over fully symbolic shapes and indices and discharged by LLVM -O2 (dead-branch elimination = proof for all values).",
-    not_decided="round-trip identity / injectivity / enumeration order (mixed-radix theorem, not dischargeable); dynamic and bounded shape containers",
+    not_decided="round-trip identity / injectivity / enumeration order for shapes beyond the enumerated ones (mixed-radix theorem, not dischargeable symbolically); heap-backed shape containers",
     assumptions=["extents >= 1 where the property says positive extents", "fixed-rank container kinds (std::array, utl::array, tuple) at the ranks listed in samples"],
  ),
  "C02": dict(
@@ -66,10 +66,10 @@ PROPS = {
  ),
  "C06": dict(
     level="proof",
-    claim="Proof that pairwise broadcast_shape is sound and complete w.r.t. NumPy's rule (value exactly when all right-aligned pairs are equal-or-1, then the per-axis maximum) for all rank pairs up to 3x3 (thorough 4x4) and every extent - hence order independent -, idempotent, None-neutral, that the variadic form is the left fold of the pairwise rule, and for view::broadcast_to (source ranks 1..3 into target ranks 1..3, every stretch pattern): value exactly when each source extent is 1 or equals the right-aligned target extent, shape = target, source index inside the source shape, stretched axes read source index 0 (kept axes: proved for rank-1 sources only); associativity is not decided. (E1, constant small shapes with symbolic integer elements) view::broadcast_to and view::broadcast_arrays have the requested / common shape and read, at every index, the source element with stretched axes at 0 and prepended axes dropped; the binary ufunc view reads its operands the same way. The same view-level obligations are also decided on fixed-dimension arrays whose shape is a RUN-TIME value (std::array<size_t,R> shape pinned to the listed extents by ASSUME): the library's run-time branches (loops over len(shape), maybe-typed results that must have a value).",
+    claim="Proof that pairwise broadcast_shape is sound and complete w.r.t. NumPy's rule (value exactly when all right-aligned pairs are equal-or-1, then the per-axis maximum) for all rank pairs up to 3x3 (thorough 4x4) and every extent - hence order independent -, idempotent, None-neutral, that the variadic form is the left fold of the pairwise rule, (c06e_assoc_enum, exhaustive: every triple of shapes of rank 1..2 with extents 1..3 held in fixed arrays) three shapes broadcast exactly when all extents per aligned axis are equal or 1, to the per-axis maximum, independently of grouping and of the operand order (all six), and broadcasting the result with an operand or with itself changes nothing, and for view::broadcast_to (source ranks 1..3 into target ranks 1..3, every stretch pattern): value exactly when each source extent is 1 or equals the right-aligned target extent, shape = target, source index inside the source shape, stretched axes read source index 0 (kept axes: proved for rank-1 sources only); associativity is decided for those triples only. (E1, constant small shapes with symbolic integer elements) view::broadcast_to and view::broadcast_arrays have the requested / common shape and read, at every index, the source element with stretched axes at 0 and prepended axes dropped; the binary ufunc view reads its operands the same way. The same view-level obligations are also decided on fixed-dimension arrays whose shape is a RUN-TIME value (std::array<size_t,R> shape pinned to the listed extents by ASSUME): the library's run-time branches (loops over len(shape), maybe-typed results that must have a value).",
     note=E1_NOTE,
     technique=E1_TECH,
-    e1=[dict(tu="c06_broadcast.cpp"), dict(tu="c06b_broadcast_to.cpp"), dict(tu="c07_outer_misc.cpp"), dict(tu="c06c_bcastview.cpp"), dict(tu="c07b_bcast.cpp"), dict(tu="c06c_bcastview_rt.cpp"), dict(tu="c07b_bcast_rt.cpp")],
+    e1=[dict(tu="c06_broadcast.cpp"), dict(tu="c06b_broadcast_to.cpp"), dict(tu="c07_outer_misc.cpp"), dict(tu="c06c_bcastview.cpp"), dict(tu="c07b_bcast.cpp"), dict(tu="c06c_bcastview_rt.cpp"), dict(tu="c07b_bcast_rt.cpp"), dict(tu="c06e_assoc_enum.cpp", flags=["-DC06E_RA=1"]), dict(tu="c06e_assoc_enum.cpp", flags=["-DC06E_RA=2"])],
     e2=[dict(rule="R-PARAMUSE"), dict(rule="R-CONSTBRANCH", anchors=True), dict(rule="R-MAYBE.broadcast"), dict(rule="R-STICKYFAIL")],
     rule=E1_RULE,
     explanation="soundness and completeness are stated per first incompatible aligned axis (nested case split with the call inside each case).",
@@ -81,7 +81,7 @@ PROPS = {
     claim="Proof of the value/Nothing boundary of broadcast_shape (all rank pairs up to 3x3), of moveaxis with in-range versus out-of-range compile-time and run-time axes, of normalize_axis (scalar and arrays of 1..3 axes, every ndim <= 64) with NumPy's normalised value, and of shape_reshape (element-count mismatch, zero extent, negative extent, two -1, one -1 with/without divisibility, inferred extent = numel / product of the others), of shape_pad (value exactly when the width has two entries per axis) and index::pad (Nothing exactly for coordinates in the padding), and of shape_matmul (Nothing whenever the contraction lengths differ, every rank pair up to 4x4; value with NumPy's shape for operands of rank <= 2); plus, over ~6000 instantiated functions of the maybe-lifting layer (index, view, eval, kernel helper, isequal/isclose), every dereference of a maybe-typed expression is dominated by the true edge of a truth test on that expression, and every integer division in index/ and view/ has a validated or role-justified divisor (the reshape divisor is tied to the zero-extent validation). The value/Nothing boundary of the remaining operations is not decided. (E1 c15c_invalid_views, run-time shape kind) at the view level: reshape (element count, two -1, non-dividing -1, zero extent), incompatible broadcasts in ufuncs / where / broadcast_to, a pad width list of the wrong length yield Nothing; transpose with a repeated axis and concatenate / stack with mismatching operands are accepted by the unchanged tree (known findings F29, F30).",
     note=E1_NOTE + " " + E2_NOTE,
     technique=E1_TECH + " + CFG typestate/dominance rules (test-before-dereference, zero-guarded division) on instantiations",
-    e1=[dict(tu="c06_broadcast.cpp"), dict(tu="c03_rearrange.cpp"), dict(tu="c03b_dynamic.cpp"), dict(tu="c15_args.cpp"), dict(tu="c06b_broadcast_to.cpp"), dict(tu="c04b_concat.cpp"), dict(tu="c15b_pad_matmul.cpp"), dict(tu="c03f_moveaxis_multi.cpp"), dict(tu="c15c_invalid_views.cpp")],
+    e1=[dict(tu="c06_broadcast.cpp"), dict(tu="c03_rearrange.cpp"), dict(tu="c03b_dynamic.cpp"), dict(tu="c15_args.cpp"), dict(tu="c06b_broadcast_to.cpp"), dict(tu="c04b_concat.cpp"), dict(tu="c15b_pad_matmul.cpp"), dict(tu="c03f_moveaxis_multi.cpp"), dict(tu="c15c_invalid_views.cpp"), dict(tu="c06e_assoc_enum.cpp", flags=["-DC06E_RA=1"]), dict(tu="c06e_assoc_enum.cpp", flags=["-DC06E_RA=2"])],
     e2=[dict(rule="R-MAYBE-DIV"), dict(rule="R-STICKYFAIL")],
     rule=E1_RULE + "; E2: one instance per dereference of a maybe-typed expression / per integer division site in the instantiated lifting functions (drivers/maybe_inst.cpp)",
     explanation="value exactly when NumPy accepts, Nothing exactly when NumPy raises, for the listed operations; an empty optional is never dereferenced = every dereference is dominated by a truth test of the same expression (typestate rule on the CFG); no division by an unvalidated user-derived divisor.",
@@ -201,7 +201,7 @@ PROPS["C09"] = dict(
     claim="In each of the 41 index resolve_optype specialisations with a compile-time branch, that branch is defined as the paired run-time function applied to to_value_v of the specialisation's own parameters in parameter order, and every ct<>/clipped<> constant it builds is an unmodified element of that call's result - so the value computed at compile time is the value the run-time code computes, by construction. For shape_squeeze - whose clipped-tuple, fixed-array and run-time-length branches are three separate pieces of code - E1 additionally proves that all of them (std::array, utl::array, bounded static_vector, tuple of clipped integers) return the same, NumPy, result for every pattern of single extents at ranks 1..4. The 15-kind cast matrix (constant / fixed / bounded / dynamic / clipped shape x fixed / bounded / dynamic buffer) is checked by 15 type-level witnesses: the result of cast(a, kind) has exactly the shape knowledge and buffer kind its tag names, element type kept. Container-kind independence of the addressing functions (C01 obligations: std::array, utl::array, tuple, bounded run-time-length static_vector), of broadcast_shape (C06 obligations: std::array, utl::array, tuples incl. constants, mixed), of the run-time rearranging views (C03: fixed vs bounded-dimension arrays) and of isequal (C18: fixed, bounded, heap index arrays) is decided by counting those multi-kind obligations here as well: every kind is proved equal to ONE oracle text, hence the kinds agree with each other. STL vs non-STL builds and compiler independence are not decided.",
     note=E2_NOTE + " " + E1_NOTE,
     technique="static: custom libTooling extractor + by-construction rule on type-level branches (argument order, unmodified result); " + E1_TECH + " for branch agreement of shape_squeeze",
-    e1=[dict(tu="c03d_squeeze.cpp"), dict(tu="c06_broadcast.cpp", count_as="C06"), dict(tu="c01_index.cpp", count_as="C01"), dict(tu="c03b_dynamic.cpp", count_as="C03"), dict(tu="c18_isequal.cpp", count_as="C18"), dict(tu="c02d_capacity2.cpp")],
+    e1=[dict(tu="c03d_squeeze.cpp"), dict(tu="c06_broadcast.cpp", count_as="C06"), dict(tu="c01_index.cpp", count_as="C01"), dict(tu="c01b_roundtrip_enum.cpp", count_as="C01"), dict(tu="c03b_dynamic.cpp", count_as="C03"), dict(tu="c18_isequal.cpp", count_as="C18"), dict(tu="c02d_capacity2.cpp")],
     e3=[dict(group="C09")],
     e2=[dict(rule="R-CONSTBRANCH"), dict(rule="R-STICKYFAIL")],
     rule=E1_RULE + "; E2: one instance per resolve_optype<void, index::TAG_t, ...> specialisation that builds constants; distinct by (file, specialisation arguments)",
@@ -258,13 +258,13 @@ PROPS["C05"] = dict(
 
 PROPS["C17"] = dict(
     level="proof",
-    claim="Partial, one clause only: (E1 c17_pool, index level, exhaustive over small parameters) the output shape of 2-d pooling is the standard formula - floor((H-k)/s)+1, in ceil mode the ceiling with a last window that would start beyond the input dropped (PyTorch's rule), batch and channel extents kept - for every H in 1..7, k in 1..min(H,3), s in 1..3, both modes, on either spatial axis; and the window of output position p is rows / columns [p*s, p*s+k) with the batch / channel position kept, inside the input in floor mode and starting inside it in ceil mode. The ELEMENT laws of pooling, convolution, normalisation, softmax, linear, bilinear, distances are NOT decided: at view level only the shapes fold, the element obligations of max_pool2d, conv1d and linear-with-bias stay residual (run-time slice lists / nested reductions), and the floating-point routines are out of reach.",
+    claim="Partial, one clause only: (E1 c17_pool, index level, exhaustive over small parameters) the output shape of 2-d pooling is the standard formula - floor((H-k)/s)+1, in ceil mode the ceiling with a last window that would start beyond the input dropped (PyTorch's rule), batch and channel extents kept - for every H in 1..7, k in 1..min(H,3), s in 1..3, both modes, on either spatial axis; and the window of output position p is rows / columns [p*s, p*s+k) with the batch / channel position kept, inside the input in floor mode and starting inside it in ceil mode. (E1 c17b_conv_shape, view level, constant shapes; the run-time kind does not fold) the output shape of conv1d / conv2d is floor((L + 2p - d(k-1) - 1)/s) + 1 per spatial axis for a stride, a zero padding and a dilation given per axis (asymmetric ones included), (N, C_out, ...) in front. The ELEMENT laws of pooling, convolution, normalisation, softmax, linear, bilinear, distances are NOT decided: at view level only the shapes fold, the element obligations of max_pool2d, conv1d and linear-with-bias stay residual (run-time slice lists / nested reductions), and the floating-point routines are out of reach.",
     note=E1_NOTE + " The functions depend on (extent, kernel, stride, mode) only; these are constants, so the float quotient is folded by the compiler. Decided after the repair `fix: pooling in ceil mode drops a last window that would start beyond the input` (F35).",
     technique=E1_TECH + " (exhaustive enumeration of pooling parameters)",
-    e1=[dict(tu="c17_pool.cpp")],
+    e1=[dict(tu="c17_pool.cpp"), dict(tu="c17b_conv_shape.cpp", flags=["-DC17B_PART=1"]), dict(tu="c17b_conv_shape.cpp", flags=["-DC17B_PART=2"])],
     rule=E1_RULE,
     explanation="shape_pool2d / slice_pool2d are integer functions of four small parameters per axis; each (parameter combination, clause) is one obligation against the formula of the property statement.",
-    not_decided="every element law of C17 (pooling values, conv1d / conv2d, softmax / softmin, the normalisations, linear, bilinear, pairwise_distance, cosine_similarity), convolution output shapes, padding / dilation, extents above 7",
+    not_decided="every element law of C17 (pooling values, conv1d / conv2d, softmax / softmin, the normalisations, linear, bilinear, pairwise_distance, cosine_similarity); convolution with a batch above 1 or with groups (conv2d does not build / aborts there on the unchanged tree); pooling extents above 7",
     assumptions=["kernel not larger than the input", "no padding, no dilation (pool2d has neither parameter)"],
 )
 
